@@ -88,12 +88,15 @@ func cmdFunc(args []string) int {
 		fmt.Fprintln(os.Stderr, err)
 		return 2
 	}
-	scratch, _ := os.MkdirTemp("", "govc")
+	var scratch string
 	if *keep != "" {
 		scratch = *keep
 		os.MkdirAll(scratch, 0755)
-	} else if !*dump {
-		defer os.RemoveAll(scratch)
+	} else {
+		scratch, _ = os.MkdirTemp("", "govc")
+		if !*dump {
+			defer os.RemoveAll(scratch)
+		}
 	}
 	e.ScratchDir = scratch
 	var fcs []*FuncContract
